@@ -36,6 +36,8 @@ class DummyDAC(DAC):
             self._operations.pop(program_name)
         if program_name in self._measurement_windows:
             self._measurement_windows.pop(program_name)
+        if self._armed_program == program_name:
+            self._armed_program = None
 
     def clear(self) -> None:
         self._measurement_windows = dict()
